@@ -2,9 +2,11 @@
 
 Model: lean/StraxModel/Model/FS.lean (abstract crashing file system + the FileSaver protocol as a small-step
 machine: saver thread, chunk-writer workers, writes the handler does not wait for, fault actions); theorems:
-Props/C04.lean (universal statements: serial and executor variants; the forked variant — savers inlined into a
-ParallelSourcePlugin — is modelled as coded since the D35 fix 8cfc614, tied here at operation level, with `decide`
-witnesses and the refutation of the unfixed cleanup in Props).
+Props/C04.lean (universal statements over all three variants: serial, executor and forked — savers inlined into a
+ParallelSourcePlugin, modelled as coded since the D35 fix 8cfc614, tied here at operation level; the unfixed cleanup is
+refuted by `decide` witnesses).  The decision logic "which data counts as broken / may be replaced" (`_can_overwrite`,
+the check_broken block of `find`, `_find(write=True)`) is regenerated from the Python AST (`regen`, Generated/StorePolicy.lean),
+proved equal to Model/StorePolicy.lean and tied exhaustively by the component `policy`.
 Tie: every FS operation the real code issues while making a target of a small plugin graph is intercepted by
 checks/lib/faultfs.py (module attributes of strax.storage.files / strax.io rebound, nothing in /repo edited).
 For every operation of the fault-free attempt an exception is injected at it, and the process is killed (fork +
@@ -1304,9 +1306,272 @@ def scenario_cases(ctx, p):
     return cases
 
 
+# ============================================================================================ translator + policy tie
+# The decision logic around the save protocol — which existing data counts as broken and may be replaced — is scalar:
+# `StorageFrontend._can_overwrite`, the check_broken block at the end of `StorageFrontend.find` and the write branch of
+# `DataDirectory._find`.  `regen` re-derives Lean definitions from the Python AST of /repo's current source on every run
+# (Generated/StorePolicy.lean); Props/C04.lean proves them equal to Model/StorePolicy.lean and proves the property's
+# clauses ("broken data never blocks a retry", "valid data is never replaced under the default policy") of them.
+
+class Untranslatable(Exception):
+    pass
+
+
+_META_KEYS = {"writing_ended": "has_writing_ended", "exception": "has_exception"}
+_BOOL_NAMES = {"allow_incomplete": "allow_incomplete", "exists": "dir_exists"}
+
+
+def _tr_bool(e, meta_names):
+    import ast
+    if isinstance(e, ast.Constant) and isinstance(e.value, bool):
+        return "true" if e.value else "false"
+    if isinstance(e, ast.UnaryOp) and isinstance(e.op, ast.Not):
+        return f"(!{_tr_bool(e.operand, meta_names)})"
+    if isinstance(e, ast.BoolOp):
+        op = " && " if isinstance(e.op, ast.And) else " || "
+        return "(" + op.join(_tr_bool(v, meta_names) for v in e.values) + ")"
+    if isinstance(e, ast.Name) and e.id in _BOOL_NAMES:
+        return _BOOL_NAMES[e.id]
+    if isinstance(e, ast.Call) and isinstance(e.func, ast.Attribute) and e.func.attr == "_can_overwrite" \
+            and isinstance(e.func.value, ast.Name) and e.func.value.id == "self":
+        return "can_overwrite"
+    if isinstance(e, ast.Compare) and len(e.ops) == 1:
+        l, op, r = e.left, e.ops[0], e.comparators[0]
+        if isinstance(l, ast.Constant) and isinstance(l.value, str) and isinstance(r, ast.Name) and r.id in meta_names \
+                and isinstance(op, (ast.In, ast.NotIn)):
+            if l.value not in _META_KEYS:
+                raise Untranslatable(f"metadata key {l.value!r}")
+            v = _META_KEYS[l.value]
+            return v if isinstance(op, ast.In) else f"(!{v})"
+        if isinstance(l, ast.Attribute) and l.attr == "overwrite" and isinstance(l.value, ast.Name) and l.value.id == "self" \
+                and isinstance(r, ast.Constant) and isinstance(r.value, str) and isinstance(op, (ast.Eq, ast.NotEq)):
+            t = f'(overwrite == "{r.value}")'
+            return t if isinstance(op, ast.Eq) else f"(!{t})"
+    raise Untranslatable(f"expression {type(e).__name__}")
+
+
+def _is_meta_fetch(st):
+    """`<name> = <…>.get_metadata(…)`: binds the metadata variable"""
+    import ast
+    return (isinstance(st, ast.Assign) and len(st.targets) == 1 and isinstance(st.targets[0], ast.Name)
+            and isinstance(st.value, ast.Call) and isinstance(st.value.func, ast.Attribute)
+            and st.value.func.attr == "get_metadata")
+
+
+def _raises(st, name):
+    import ast
+    if not isinstance(st, ast.Raise) or st.exc is None:
+        return False
+    f = st.exc.func if isinstance(st.exc, ast.Call) else st.exc
+    return (isinstance(f, ast.Name) and f.id == name) or (isinstance(f, ast.Attribute) and f.attr == name)
+
+
+def _tr_ret_block(stmts, meta_names):
+    """statements of a function returning a bool"""
+    import ast
+    if not stmts:
+        raise Untranslatable("function may fall off its end")
+    st, rest = stmts[0], stmts[1:]
+    if _is_meta_fetch(st):
+        return _tr_ret_block(rest, meta_names | {st.targets[0].id})
+    if isinstance(st, ast.Return) and st.value is not None:
+        return _tr_bool(st.value, meta_names)
+    if isinstance(st, ast.If):
+        if not isinstance(st.body[-1], ast.Return):
+            raise Untranslatable("if-body that falls through")
+        test = _tr_bool(st.test, meta_names)
+        return f"(if {test} then {_tr_ret_block(st.body, meta_names)} else {_tr_ret_block(st.orelse + rest, meta_names)})"
+    raise Untranslatable(f"statement {type(st).__name__}")
+
+
+def _tr_raise_block(stmts, meta_names):
+    """statements that either raise DataNotAvailable or fall through"""
+    import ast
+    if not stmts:
+        return ".ok ()"
+    st, rest = stmts[0], stmts[1:]
+    if _is_meta_fetch(st):
+        return _tr_raise_block(rest, meta_names | {st.targets[0].id})
+    if isinstance(st, ast.If) and not st.orelse:
+        body = [b for b in st.body if not (isinstance(b, ast.Assign) and isinstance(b.value, ast.Subscript))]
+        if len(body) != 1 or not _raises(body[0], "DataNotAvailable"):
+            raise Untranslatable("if-body other than `raise DataNotAvailable`")
+        return f"(if {_tr_bool(st.test, meta_names)} then .error .dataNotAvailable else {_tr_raise_block(rest, meta_names)})"
+    raise Untranslatable(f"statement {type(st).__name__}")
+
+
+def _method(tree, cls, name):
+    import ast
+    c = next(n for n in ast.walk(tree) if isinstance(n, ast.ClassDef) and n.name == cls)
+    return next(n for n in c.body if isinstance(n, ast.FunctionDef) and n.name == name)
+
+
+def _translate_policy():
+    import ast
+    from lib.engine import REPO
+    common = ast.parse((REPO / "strax" / "storage" / "common.py").read_text())
+    files = ast.parse((REPO / "strax" / "storage" / "files.py").read_text())
+    out = {}
+    fn = _method(common, "StorageFrontend", "_can_overwrite")
+    out["_can_overwrite"] = lambda: _tr_ret_block(fn.body, set())
+    find = _method(common, "StorageFrontend", "find")
+
+    def broken():
+        blocks = [st for st in find.body if isinstance(st, ast.If) and isinstance(st.test, ast.BoolOp)
+                  and isinstance(st.test.op, ast.And) and len(st.test.values) == 2
+                  and isinstance(st.test.values[0], ast.UnaryOp) and isinstance(st.test.values[0].op, ast.Not)
+                  and isinstance(st.test.values[0].operand, ast.Name) and st.test.values[0].operand.id == "write"
+                  and isinstance(st.test.values[1], ast.Name) and st.test.values[1].id == "check_broken"]
+        if len(blocks) != 1 or blocks[0].orelse:
+            raise Untranslatable("`if not write and check_broken:` block not found")
+        return _tr_raise_block(blocks[0].body, set())
+    out["find.check_broken"] = broken
+    dfind = _method(files, "DataDirectory", "_find")
+
+    def refused():
+        blocks = [st for st in dfind.body if isinstance(st, ast.If) and isinstance(st.test, ast.Name) and st.test.id == "write"]
+        if len(blocks) != 1 or blocks[0].orelse or len(blocks[0].body) != 2:
+            raise Untranslatable("`if write:` block not found")
+        inner, ret = blocks[0].body
+        if not (isinstance(inner, ast.If) and not inner.orelse and len(inner.body) == 1 and _raises(inner.body[0], "DataExistsError")
+                and isinstance(ret, ast.Return)):
+            raise Untranslatable("`if write:` block has another shape")
+        return _tr_bool(inner.test, set())
+    out["DataDirectory._find.write"] = refused
+    return out
+
+
+def regen(ctx):
+    """Regenerate Generated/StorePolicy.lean from the current source of strax/storage/common.py and files.py."""
+    from lib.engine import LEAN
+    out = LEAN / "StraxModel" / "Generated" / "StorePolicy.lean"
+    # an untranslatable piece keeps a definition that cannot be proved equal to the model (the proof obligation breaks)
+    fallback = {"_can_overwrite": "false && overwrite.isEmpty", "find.check_broken": ".error .other",
+                "DataDirectory._find.write": "true && dir_exists && can_overwrite"}
+    bodies = {}
+    try:
+        parts = _translate_policy()
+    except Exception as e:                                        # source file / class / method gone
+        parts = {k: (lambda e=e: (_ for _ in ()).throw(Untranslatable(f"{type(e).__name__}: {e}"))) for k in fallback}
+    for name, thunk in parts.items():
+        try:
+            bodies[name] = thunk()
+            ctx.translator[name] = "translated"
+        except (Untranslatable, StopIteration, SyntaxError, AttributeError, IndexError) as e:
+            bodies[name] = fallback[name]
+            ctx.translator[name] = f"untranslatable: {e}"
+            ctx.violation(f"translator:{name}", "translator", None, {"reason": str(e)},
+                          f"translator regenerates the Lean definition of {name} from its source", False)
+    text = ("-- GENERATED by checks/props/c04.py:regen from /repo/strax/storage/common.py (StorageFrontend._can_overwrite, the\n"
+            "-- check_broken block of StorageFrontend.find) and /repo/strax/storage/files.py (DataDirectory._find, write branch).\n"
+            "-- Do not edit.\n"
+            "import StraxModel.Model.Basic\n"
+            "namespace Strax.Generated\n\n"
+            "def canOverwrite (overwrite : String) (has_writing_ended has_exception : Bool) : Bool :=\n"
+            f"  {bodies['_can_overwrite']}\n\n"
+            "def brokenCheck (allow_incomplete has_writing_ended has_exception : Bool) : Except Strax.Err Unit :=\n"
+            f"  {bodies['find.check_broken']}\n\n"
+            "def writeRefused (dir_exists can_overwrite : Bool) : Bool :=\n"
+            f"  {bodies['DataDirectory._find.write']}\n\n"
+            "end Strax.Generated\n")
+    if not out.exists() or out.read_text() != text:
+        out.write_text(text)
+
+
+def _policy_key():
+    return strax.DataKey("0", "recs", {"recs": ("P", "0", {})})
+
+
+def _policy_dir(root, exists, ended, exc, policy="if_broken"):
+    """a real DataDirectory whose data directory for the key exists or not, with a real metadata file"""
+    fe = strax.DataDirectory(root, overwrite=policy)
+    key = _policy_key()
+    dn = os.path.join(root, str(key))
+    if exists:
+        os.makedirs(dn)
+        md = {"chunks": []}
+        if ended:
+            md["writing_ended"] = 1.0
+        if exc:
+            md["exception"] = "boom"
+        with open(os.path.join(dn, strax.RUN_METADATA_PATTERN % strax.dirname_to_prefix(dn)), "w") as f:
+            json.dump(md, f)
+    return fe, key
+
+
+def _policy_guard(f):
+    try:
+        r = f()
+        return "ok" if r is None else f"ok {r}"
+    except (strax.DataExistsError, strax.DataNotAvailable, strax.DataCorrupted) as e:
+        return "err " + type(e).__name__
+    except Exception as e:  # noqa: BLE001
+        return "err " + sl.err_name(e)
+
+
+def policy_impl(case):
+    root = tempfile.mkdtemp(prefix="c04pol_")
+    try:
+        k = case["kind"]
+        if k == "ow":
+            fe, key = _policy_dir(root, True, case["ended"], case["exc"], case["policy"])
+            return _policy_guard(lambda: "true" if fe._can_overwrite(key) else "false")
+        if k == "broken":
+            fe, key = _policy_dir(root, True, case["ended"], case["exc"])
+            return _policy_guard(lambda: (fe.find(key, allow_incomplete=bool(case["allow"])), None)[1])
+        fe, key = _policy_dir(root, bool(case["exists"]), case["ended"], case["exc"], case["policy"])
+        return _policy_guard(lambda: (fe._find(key, write=True, allow_incomplete=False, fuzzy_for=(), fuzzy_for_options=()), None)[1])
+    finally:
+        shutil.rmtree(root, ignore_errors=True)
+
+
+def policy_op(case):
+    k = case["kind"]
+    if k == "ow":
+        return f"c04.policy ow {case['policy']} {case['ended']} {case['exc']}"
+    if k == "broken":
+        return f"c04.policy broken {case['allow']} {case['ended']} {case['exc']}"
+    return f"c04.policy wfind {case['exists']} {case['policy']} {case['ended']} {case['exc']}"
+
+
+def policy_oracle(case, out):
+    """the wording of StorageFrontend's docstring (`overwrite`: never / if_broken = only incomplete or broken data /
+    always; `check_broken`: DataNotAvailable if not completely written or written with an exception), and the property:
+    data reported unavailable must be replaceable under the default policy, valid data must not be"""
+    complete = bool(case["ended"]) and not case["exc"]
+    k = case["kind"]
+    if k == "ow":
+        want = {"never": False, "always": True, "if_broken": not complete}[case["policy"]]
+        return None if out == ("ok true" if want else "ok false") else f"_can_overwrite({case['policy']}) gave {out} for complete={complete}"
+    if k == "broken":
+        avail = (not case["exc"]) and (bool(case["ended"]) or bool(case["allow"]))
+        want = "ok" if avail else "err DataNotAvailable"
+        return None if out == want else f"find gave {out}, expected {want}"
+    refused = bool(case["exists"]) and {"never": True, "always": False, "if_broken": complete}[case["policy"]]
+    want = "err DataExistsError" if refused else "ok"
+    return None if out == want else f"_find(write=True) gave {out}, expected {want}"
+
+
+def correspond_policy(ctx):
+    cases = [dict(kind="ow", policy=p, ended=e, exc=x) for p in ("never", "if_broken", "always") for e in (0, 1) for x in (0, 1)]
+    cases += [dict(kind="broken", allow=a, ended=e, exc=x) for a in (0, 1) for e in (0, 1) for x in (0, 1)]
+    cases += [dict(kind="wfind", exists=d, policy=p, ended=e, exc=x) for d in (0, 1) for p in ("never", "if_broken", "always")
+              for e in (0, 1) for x in (0, 1)]
+    ctx.correspond(
+        "policy", cases, policy_impl, policy_op, policy_oracle,
+        nontrivial=lambda c, out: c["kind"] != "wfind" or bool(c["exists"]),
+        exhaustive=True,
+        branch=lambda c, out: f"{c['kind']}:{out}",
+        rule=("StorageFrontend._can_overwrite, the check_broken block of StorageFrontend.find and DataDirectory._find(write=True) "
+              "on a real DataDirectory with a real metadata file: every overwrite policy x writing_ended x exception "
+              "x allow_incomplete x directory exists (44 cases, exhaustive)"))
+
+
 def run(ctx):
     try:
         only = os.environ.get("C04_ONLY")           # development: a comma-separated subset of the scenarios
+        if not only or "policy" in only.split(","):
+            correspond_policy(ctx)
         for scen in ctx.pick(QUICK, THOROUGH):
             if only and scen["name"] not in only.split(","):
                 continue
